@@ -575,4 +575,26 @@ func c09WrongGoType(r *Run, t TableSpec) {
 			r.Violation("wrong-go-type", cs, "database model accepted", "error", true, "a database model with a mistyped field is accepted", "")
 		}
 	}
+	// the conversion itself: a value of another Go type (the element type of a set or optional column, for
+	// instance) is an error, not something to wrap or convert
+	val := reflect.New(w).Elem()
+	if w.Kind() == reflect.Ptr {
+		val = reflect.New(w.Elem())
+	}
+	var ores string
+	func() {
+		defer func() {
+			if p := recover(); p != nil {
+				ores = "panic: " + fmt.Sprint(p)
+			}
+		}()
+		if out, err := ovsdb.NativeToOvs(ts.Column(c.Name), val.Interface()); err != nil {
+			ores = "err"
+		} else {
+			ores = fmt.Sprintf("%#v", out)
+		}
+	}()
+	if ores != "err" {
+		r.Violation("wrong-go-type", cs, "NativeToOvs gave "+ores, "error", true, "a native value whose Go type does not match the column type is converted instead of rejected", "")
+	}
 }
